@@ -135,7 +135,9 @@ def state_obs(state, n):
 
 
 def make_tracing_compiler(base_cls, n_photons, n_quantum, log_state=True):
-    """A subclass of a real compiler that logs every elementary operation the compile loop executes."""
+    """A subclass of a real compiler that logs every elementary operation the compile loop executes.  The register
+    layout it projects with (trace_layout) belongs to the INSTANCE, so that one compiler object can be used for many
+    circuits, as a user would."""
     from graphiq.circuit import ops as gops
 
     class Tracing(base_cls):
@@ -143,17 +145,19 @@ def make_tracing_compiler(base_cls, n_photons, n_quantum, log_state=True):
             super().__init__(*a, **k)
             self.events = []
             self.creg_ref = None
+            self.trace_layout = (n_photons, n_quantum)
 
         def _log(self, state, op, classical_registers, ev="exec", extra=None):
             self.creg_ref = classical_registers
             if isinstance(op, gops.InputOutputOperationBase):
                 return
             kind = type(op).__name__
-            q = [qindex(r, t, n_photons) for r, t in zip(op.q_registers, op.q_registers_type)]
+            n_photons_, n_quantum_now = self.trace_layout
+            q = [qindex(r, t, n_photons_) for r, t in zip(op.q_registers, op.q_registers_type)]
             c = (op.c_registers[0] + 1) if len(op.c_registers) else 0
             e = {"ev": ev, "kind": kind, "q": q, "c": c,
                  "creg": [int(x) for x in np.asarray(classical_registers).tolist()],
-                 "obs": state_obs(state, n_quantum) if log_state else {"err": "", "kind": "none"}}
+                 "obs": state_obs(state, n_quantum_now) if log_state else {"err": "", "kind": "none"}}
             if extra:
                 e.update(extra)
             self.events.append(e)
@@ -167,13 +171,28 @@ def make_tracing_compiler(base_cls, n_photons, n_quantum, log_state=True):
     return Tracing
 
 
+_COMPILER_POOL = {}
+_COMPILE_COUNT = [0]
+
+
 def compile_traced(circuit, backend, setting, initial_state=None, seed=None):
     """Run the real compiler; -> (events incl. final 'done' / 'raised', returned state or None)."""
     from graphiq.backends.stabilizer.compiler import StabilizerCompiler
     from graphiq.backends.density_matrix.compiler import DensityMatrixCompiler
     base = StabilizerCompiler if backend == "stabilizer" else DensityMatrixCompiler
     n_q = circuit.n_quantum
-    comp = make_tracing_compiler(base, circuit.n_photons, n_q)()
+    # most compiles go through ONE long-lived compiler object per backend (what a user does; anything a compiler keeps
+    # between calls is then exercised), every fourth through a fresh one
+    _COMPILE_COUNT[0] += 1
+    if _COMPILE_COUNT[0] % 4 == 0 or backend not in _COMPILER_POOL:
+        comp = make_tracing_compiler(base, circuit.n_photons, n_q)()
+        if backend not in _COMPILER_POOL:
+            _COMPILER_POOL[backend] = comp
+    else:
+        comp = _COMPILER_POOL[backend]
+    comp.events = []
+    comp.creg_ref = None
+    comp.trace_layout = (circuit.n_photons, n_q)
     comp.measurement_determinism = "probabilistic" if setting == 2 else setting
     if seed is not None:
         np.random.seed(seed)
